@@ -176,13 +176,36 @@ func runConfig(c *vcase, order []int, form string, port int, rnd *rand.Rand, ful
 				if err := try(sp[0], path, want); err != nil {
 					return n, bad, badObs, err
 				}
-				if err := try(sp[1+rnd.Intn(3)], path, want); err != nil {
+				// a second spelling of the same request: Host in another letter case / with the
+				// port, and (every other time) one letter of the path percent-encoded - the
+				// request path is the decoded one
+				p2 := path
+				if rnd.Intn(2) == 0 {
+					p2 = encodeOneLetter(path, rnd)
+				}
+				if err := try(sp[1+rnd.Intn(3)], p2, want); err != nil {
 					return n, bad, badObs, err
 				}
 			}
 		}
 	}
 	return n, bad, badObs, nil
+}
+
+// encodeOneLetter percent-encodes one letter of the path (an unreserved character: the decoded
+// path is unchanged).
+func encodeOneLetter(path string, rnd *rand.Rand) string {
+	var idx []int
+	for i := 0; i < len(path); i++ {
+		if path[i] != '/' {
+			idx = append(idx, i)
+		}
+	}
+	if len(idx) == 0 {
+		return path
+	}
+	i := idx[rnd.Intn(len(idx))]
+	return path[:i] + fmt.Sprintf("%%%02X", path[i]) + path[i+1:]
 }
 
 func siteSetKey(c *vcase) string {
